@@ -292,6 +292,14 @@ func (m *mon) checkTx(rng *rand.Rand, s *TxSpec, deep bool) (*txInfo, bool) {
 		}
 		r.Count("tx_field_variant_new_hash", 1)
 	}
+	// retention: the first decoded transaction (its input bytes are still alive and untouched, it
+	// references them by design) must not have changed while all the other objects were decoded
+	if f, w := TxDiff(d, s); f != "" || !bytes.Equal(d.Raw, ti.raw) || [32]byte(d.Hash()) != ti.hash || !bytes.Equal(d.ToArray(), ti.raw) {
+		r.Violation("retained-tx-changed", fmt.Sprintf("a decoded transaction changed after later decodes of other inputs: %s %s", f, w), kit.Hex(ti.raw))
+	} else {
+		r.Count("tx_retained_unchanged", 1)
+	}
+	r.Eval(1)
 	return ti, true
 }
 
@@ -444,6 +452,14 @@ func (m *mon) checkHeader(rng *rand.Rand, s *HeaderSpec, deep bool) (*hdrInfo, b
 		}
 		r.Count("header_field_variant_new_hash", 1)
 	}
+	for _, x := range []*types.Header{d, d2} {
+		if f := HeaderDiff(x, s); f != "" || !bytes.Equal(x.ToArray(), hi.raw) {
+			r.Violation("retained-header-changed", "a decoded header changed after later decodes of other inputs: "+f, kit.Hex(hi.raw))
+		} else {
+			r.Count("header_retained_unchanged", 1)
+		}
+	}
+	r.Eval(1)
 	return hi, true
 }
 
@@ -582,6 +598,20 @@ func (m *mon) checkBlock(rng *rand.Rand, hs *HeaderSpec, txs []*TxSpec) ([]byte,
 			m.refuse("block-duplicate-tx-accepted:resigned", fmt.Sprintf("%d txs, tx %d repeated with a different signature list", len(txs), j), raw4, "duplicate_resigned_refused")
 		}
 	}
+	// retention: the decoded block (header, every transaction sharing the block's buffer) is still
+	// what was encoded after the other blocks above were decoded
+	changed := HeaderDiff(d.Header, bs.Header)
+	for i, t := range txs {
+		if f, w := TxDiff(d.Transactions[i], t); f != "" && changed == "" {
+			changed = fmt.Sprintf("tx %d %s %s", i, f, w)
+		}
+	}
+	if changed != "" || !bytes.Equal(d.ToArray(), raw) {
+		r.Violation("retained-block-changed", "a decoded block changed after later decodes of other inputs: "+changed, kit.Hex(raw))
+	} else {
+		r.Count("block_retained_unchanged", 1)
+	}
+	r.Eval(1)
 	return raw, bs, true
 }
 
@@ -779,7 +809,7 @@ func TestC02(t *testing.T) {
 	}
 	r := kit.Start(t, "C02", "exploration")
 	defer r.Finish()
-	r.Rule("generated transactions (payload 0-64 KiB, 0-3 signature entries of 1-4 keys over 6 key schemes), headers (0-7 bookkeepers/signatures), blocks (0-8 txs): round trip, identity = sha256d(unsigned part) computed by the checker, identity under signature / unsigned-field variants, size limit, duplicate and wrong-root blocks; hostile bytes = truncations, bit flips, stamps, inserted var-uints, deleted ranges, garbage and every length/count field rewritten to {0,1,0xFC,0xFD,0xFE,0xFFFF,0x10000,2^32-1,2^32,2^63,2^64-1} in canonical and 9-byte form, each decoded in a child process under ulimit -v; distinct = object shape or (decoder, mutation class, outcome, panic site)")
+	r.Rule("generated transactions (payload 0-64 KiB, 0-3 signature entries of 1-4 keys over 6 key schemes), headers (0-7 bookkeepers/signatures), blocks (0-8 txs): round trip, identity = sha256d(unsigned part) computed by the checker, identity under signature / unsigned-field variants, retention (decoded objects re-compared after later decodes of other inputs), size limit, duplicate and wrong-root blocks; hostile bytes = truncations, bit flips, stamps, inserted var-uints, deleted ranges, garbage and every length/count field rewritten to {0,1,0xFC,0xFD,0xFE,0xFFFF,0x10000,2^32-1,2^32,2^63,2^64-1} in canonical and 9-byte form, each decoded in a child process under ulimit -v; distinct = object shape or (decoder, mutation class, outcome, panic site)")
 	r.Assume("SHA-256 of the Go standard library is the reference hash; the transaction root reference is the checker's recursive model of C03")
 	r.Assume("a transaction of exactly MAX_TX_SIZE bytes is well-formed (must be accepted); larger ones must be refused")
 	r.Assume(fmt.Sprintf("hostile decodes run with the address space limited to %d KiB: a decoder that requests more memory than that for one input dies with a fatal out-of-memory error, which is reported like a panic", VLimitKB))
@@ -871,6 +901,9 @@ func TestC02(t *testing.T) {
 	r.Require("header_sig_variant_same_hash", nHdr)
 	r.Require("header_field_variant_new_hash", 9*nHdr)
 	r.Require("block_accepted", nBlk)
+	r.Require("tx_retained_unchanged", nTx)
+	r.Require("header_retained_unchanged", 2*nHdr)
+	r.Require("block_retained_unchanged", nBlk)
 	r.Require("wrong_root_refused", nBlk)
 	r.Require("duplicate_refused", nBlk/2)
 	r.Require("duplicate_resigned_refused", nBlk/2)
